@@ -19,6 +19,8 @@ if SELECT:
 
 
 def wanted(diff):
+    if os.environ.get('SA_ONLY'):
+        return os.environ['SA_ONLY'].split(',')
     if not SELECT:
         return ALL
     touched = set()
